@@ -1,7 +1,12 @@
 import TbbVerif.Core.Proto
+import TbbVerif.Model.C09
 
 open TbbVerif
 
-def drivers : List (String × Proto.Driver) := []
+def drivers : List (String × Proto.Driver) := [
+  ("c09q", C09.driverQ),
+  ("c09pure", Proto.pureDriver C09.drivePure),
+  ("c09ring", C09.driverRing)
+]
 
 def main (args : List String) : IO UInt32 := Proto.mainOf drivers args
